@@ -306,6 +306,17 @@ impl Database {
 
     /// Runs WAL recovery to restore database to consistent state.
     fn run_recovery(&self) -> DatabaseResult<()> {
+        let analysis = self.pager.write().run_analysis()?;
+
+        // The transaction counter in the header is as old as the last checkpoint: ids handed out
+        // since then are only known from the log and must not be handed out again.
+        if let Some(max_logged) = analysis.lsn_chains.keys().next_back().copied() {
+            let mut pager = self.pager.write();
+            if max_logged > pager.get_last_created_transaction() {
+                pager.set_last_created_transaction(max_logged);
+            }
+        }
+
         let (tx_ctx, logger) = Self::begin_transaction(
             self.coordinator.clone(),
             self.pager.clone(),
@@ -316,9 +327,6 @@ impl Database {
         // Begin a recovery transaction
         self.task_runner.run(move |ctx| {
             let mut recuperator = WalRecuperator::new(child, logger.clone());
-
-            // Run analysis INSIDE the closure using the cloned pager
-            let analysis = pager.write().run_analysis().map_err(box_err)?;
 
             // Run recovery through recuperator
             recuperator.run_recovery(&analysis).map_err(box_err)?;
